@@ -203,6 +203,7 @@ func (ex *Explorer) registerIntrinsics() {
 		return r.ctx().True
 	}
 	m["vh/vx.SteerRand"] = func(r *Run, caller *frame, fn *ssa.Function, args []Value) Value { return nil }
+	m["github.com/welllog/golib/zzshim/ctl.Enter"] = func(r *Run, caller *frame, fn *ssa.Function, args []Value) Value { return nil }
 	m["vh/vx.Gate"] = func(r *Run, caller *frame, fn *ssa.Function, args []Value) Value {
 		r.sched.point("vx.Gate")
 		return nil
